@@ -56,6 +56,10 @@ pub struct Cfg {
     /// (its pipe is woken from inside whatever context performs the drop)
     #[serde(default)]
     pub chained_streams: bool,
+    /// input streams are cooperative: the first `n` times one of them has nothing to deliver it wakes its own waker from
+    /// inside poll_next (and returns Pending), so the pipe is woken while it is still polling
+    #[serde(default)]
+    pub stream_self_wakes: u8,
 }
 
 #[derive(Clone, Copy, Debug, PartialEq, Eq, Serialize, Deserialize)]
@@ -171,6 +175,8 @@ pub enum RootAct {
     SpawnThread,
     Despawn,
     OpenGate { g: u8 },
+    /// fire every waker gate g has ever been given again (stale wake-ups, as the Waker contract allows)
+    Rewake { g: u8 },
 }
 
 #[derive(Clone, Debug, PartialEq, Serialize, Deserialize, Default)]
